@@ -762,13 +762,28 @@ pub fn run(tier: Tier, replay: Option<String>) -> i32 {
             .collect();
         multinomial(&steps).min(u64::MAX as u128) as u64
     });
+    // the harnesses run smallest first; a wall-clock budget hit on a loaded machine is a coverage
+    // statement (recorded in the evidence), never a verdict and never a failure of the check
+    let mut skipped: Vec<String> = Vec::new();
+    let mut capped = false;
     for h in &hs {
+        if capped {
+            skipped.push(h.name.to_string());
+            continue;
+        }
         run_harness(&ctx, h, 14);
-        if ctx.elapsed() > if tier.thorough() { 3000.0 } else { 120.0 } {
-            ctx.machinery("time cap hit before all harnesses were explored");
-            break;
+        if ctx.elapsed() > if tier.thorough() { 3000.0 } else { 900.0 } {
+            capped = true;
         }
     }
+    if !skipped.is_empty() {
+        println!("NOTE: wall-clock budget reached; {} of {} harnesses not explored in this run: {:?}", skipped.len(), hs.len(), skipped);
+        ctx.assume(&format!("wall-clock budget reached in this run: harnesses not explored: {:?}", skipped));
+    }
+    if !skipped.is_empty() {
+        ctx.set_exhaustive(false);
+    }
+    ctx.extra("harnesses_not_explored_budget", json!(skipped));
     let infos = ctx_harness_infos().lock().unwrap().clone();
     let total_outcomes: u64 = infos.iter().map(|i| i["distinct_outcomes"].as_u64().unwrap_or(0)).sum();
     ctx.extra("harnesses", json!(infos));
